@@ -455,6 +455,80 @@ bool accepts(const FA& a, const std::vector<std::string>& w) {
 	for (long q : cur) if (a.finals.count(q)) return true; return false;
 }
 
+// =================================================================== independent Timbuk reader
+static std::string trim_ws(const std::string& s) {
+	size_t a = s.find_first_not_of(" \t\r\n\v\f"); if (a == std::string::npos) return "";
+	size_t b = s.find_last_not_of(" \t\r\n\v\f"); return s.substr(a, b - a + 1);
+}
+bool parse_timbuk_ref(const std::string& text, Desc& d, std::string* err) {
+	d = Desc(); std::istringstream in(text); std::string line; bool in_trans = false;
+	auto fail = [&](const std::string& m) { if (err) *err = m; return false; };
+	while (std::getline(in, line)) {
+		std::string t = trim_ws(line); if (t.empty()) continue;
+		if (!in_trans) {
+			std::istringstream ls(t); std::string w; ls >> w;
+			if (w == "Transitions") { in_trans = true; continue; }
+			if (w == "Automaton") { ls >> d.name; continue; }
+			if (w == "Ops") { std::string tok; while (ls >> tok) { size_t c = tok.rfind(':'); if (c == std::string::npos) d.ops.insert(Sym(tok, -1)); else d.ops.insert(Sym(tok.substr(0, c), atoi(tok.c_str() + c + 1))); } continue; }
+			if (w == "States") { std::string tok; while (ls >> tok) { size_t c = tok.find(':'); d.states.insert(tok.substr(0, c)); } continue; }
+			if (w == "Final") { std::string tok; ls >> tok; if (tok != "States") return fail("Final without States"); while (ls >> tok) { size_t c = tok.find(':'); d.finals.insert(tok.substr(0, c)); } continue; }
+			return fail("unexpected line: " + t);
+		}
+		size_t ar = t.find("->"); if (ar == std::string::npos) return fail("no arrow: " + t);
+		std::string lhs = trim_ws(t.substr(0, ar)), rhs = trim_ws(t.substr(ar + 2));
+		if (rhs.empty()) return fail("empty rhs");
+		std::vector<std::string> ch; std::string sym = lhs; size_t lp = lhs.find('(');
+		if (lp != std::string::npos) {
+			size_t rp = lhs.rfind(')'); if (rp == std::string::npos || rp < lp) return fail("bad parens");
+			sym = trim_ws(lhs.substr(0, lp)); std::string in2 = lhs.substr(lp + 1, rp - lp - 1); size_t p = 0;
+			if (!trim_ws(in2).empty()) while (true) { size_t q = in2.find(',', p); ch.push_back(trim_ws(in2.substr(p, q == std::string::npos ? q : q - p))); if (q == std::string::npos) break; p = q + 1; }
+		}
+		if (sym.empty()) return fail("empty symbol");
+		d.trans.insert(std::make_tuple(sym, ch, rhs));
+	}
+	if (!in_trans) return fail("no Transitions section");
+	return true;
+}
+std::string desc_to_timbuk(const Desc& d, bool parens) {
+	std::ostringstream o; o << "Ops";
+	for (const Sym& s : d.ops) o << " " << s.first << ":" << s.second;
+	o << "\nAutomaton " << (d.name.empty() ? "anonymous" : d.name) << "\nStates";
+	for (const std::string& s : d.states) o << " " << s;
+	o << "\nFinal States"; for (const std::string& s : d.finals) o << " " << s;
+	o << "\nTransitions\n";
+	for (auto& t : d.trans) {
+		o << std::get<0>(t);
+		if (!std::get<1>(t).empty() || parens) { o << "("; for (size_t i = 0; i < std::get<1>(t).size(); ++i) o << (i ? "," : "") << std::get<1>(t)[i]; o << ")"; }
+		o << " -> " << std::get<2>(t) << "\n";
+	}
+	return o.str();
+}
+static bool state_num(const std::string& s, const std::string& prefix, long& out) {
+	if (s.compare(0, prefix.size(), prefix) != 0 || s.size() == prefix.size()) return false;
+	char* e = nullptr; out = strtol(s.c_str() + prefix.size(), &e, 10); return *e == 0;
+}
+bool desc_to_ta(const Desc& d, const std::string& prefix, TA& out) {
+	out = TA(); long v;
+	for (const std::string& f : d.finals) { if (!state_num(f, prefix, v)) return false; out.finals.insert(v); }
+	for (auto& t : d.trans) {
+		Rule r; r.sym = std::get<0>(t); if (!state_num(std::get<2>(t), prefix, v)) return false; r.parent = v;
+		for (const std::string& c : std::get<1>(t)) { if (!state_num(c, prefix, v)) return false; r.ch.push_back(v); }
+		out.rules.insert(r);
+	}
+	return true;
+}
+bool desc_to_fa(const Desc& d, const std::string& prefix, FA& out) {
+	out = FA(); long v, w;
+	for (const std::string& f : d.finals) { if (!state_num(f, prefix, v)) return false; out.finals.insert(v); }
+	for (auto& t : d.trans) {
+		if (!state_num(std::get<2>(t), prefix, v)) return false;
+		if (std::get<1>(t).empty()) { out.starts.insert(v); out.start_syms[v].insert(std::get<0>(t)); continue; }
+		if (std::get<1>(t).size() != 1 || !state_num(std::get<1>(t)[0], prefix, w)) return false;
+		Edge e; e.src = w; e.sym = std::get<0>(t); e.dst = v; out.edges.insert(e);
+	}
+	return true;
+}
+
 // =================================================================== MTBDD reference
 // canonical reduced-ordered node count of a set of functions sharing nodes
 // (variable order as in OndriksMTBDD: the HIGHEST variable index at the root).
